@@ -20,4 +20,57 @@ META = {
         'technique': 'ownership/frame contracts checked by pyvc-own (no SMT)',
         'engine': 'pyvc-own',
     },
+    'C03': {
+        'text': 'Every obligation generated from the DER/BER encoder primitives (encode_length_definite, encode_tag, encode_signed_integer, '
+                'Boolean/Integer/OctetString/BitString/Enumerated contents, Null, the TLV wrapper StandardEncodeMixin.encode for every '
+                'concrete class, der.BitString.encode) against X.690 spec functions is discharged for all inputs; plus copy-before-write '
+                'frame obligations on the compile-time specialisation of cached types.',
+        'note': 'Not covered: SET ordering, SET OF sorting, DEFAULT omission in MembersType, named-bit zero stripping, time/REAL. '
+                'Spec functions are my reading of X.690 (cross-checked natively against the code on generated inputs).',
+        'technique': 'contracts + VC generation over the python ast, z3; lemmas by induction; pyvc-own for copy-before-write',
+    },
+    'C04': {
+        'text': 'Progress/termination and form-acceptance contracts of the BER decoder kernel: decode_length accepts every definite form '
+                '(any number of length octets) and the indefinite form, end-of-contents detection, primitive and constructed tag forms, '
+                'constructed segment loops; all obligations discharged for unbounded input.',
+        'note': 'Reduced: the order-insensitive member loop and value-level equality of re-serialised encodings are not proved.',
+        'technique': 'contracts + VC generation over the python ast, z3',
+    },
+    'C05': {
+        'text': 'Exact contracts of the PER/UPER Encoder/Decoder primitives against X.691 clause 11 (alignment, length determinant, '
+                'normally small numbers, constrained whole numbers), all obligations discharged.',
+        'note': 'Reduced to the numeric core; type classes not under contract yet; accumulator <= 4096 bits for exactness.',
+        'technique': 'contracts + VC generation over the python ast, z3; bit-string algebra lemmas (pow2_add, cat_bound) by induction',
+    },
+    'C06': {
+        'text': 'Exact contracts of the OER Encoder/Decoder primitives and of INTEGER width selection (X.696 10), BOOLEAN, fixed-size '
+                'BIT STRING/OCTET STRING decode; all obligations discharged.',
+        'note': 'Reduced to the numeric core and leaf types listed; containers not under contract yet.',
+        'technique': 'contracts + VC generation over the python ast, z3; bit-string algebra lemmas by induction',
+    },
+    'C07': {
+        'text': 'Skip contracts: unknown CHOICE alternative skipped by exactly tlv_end, extensible ENUMERATED unknown value -> None, '
+                'checked skip_bits in PER/OER; all obligations discharged.',
+        'note': 'Reduced: SEQUENCE addition decoding in PER/OER/BER containers is not under contract yet.',
+        'technique': 'contracts + VC generation over the python ast, z3',
+    },
+    'C08': {
+        'text': 'Termination (a decreases measure on every while loop) and progress contracts for the BER/DER/OER decode kernels, '
+                'plus frame obligations on all decode paths (no shared state written).',
+        'note': 'Reduced: member loops of SEQUENCE/SET, PER chunk generators, JER/XER library calls are outside the kernel.',
+        'technique': 'contracts with decreases measures + VC generation, z3; pyvc-own frame check',
+    },
+    'C11': {
+        'text': 'iff-contracts on the constraints checker (raises ConstraintsError exactly when the declared single range / size / '
+                'alphabet is violated; extensible => not enforced; every list element visited; CHOICE) discharged for all values.',
+        'note': 'Bound resolution in the compiler and SEQUENCE traversal are not under contract yet.',
+        'technique': 'contracts (raises-iff) + VC generation over the python ast, z3 (strings, quantified loop invariants)',
+    },
+    'C16': {
+        'text': 'Checked-read contracts on every decoder primitive of BER (decode_length, skip_tag, tag comparison), PER and OER '
+                '(read_bit, read_bits, read_non_negative_binary_integer, skip_bits, peek_bit, ...): too few bits => the library decode '
+                'error, view unchanged, and no other exception type on that path.',
+        'note': 'The prefix/consumption meta-lemmas that lift this to whole encodings are argued, not mechanised.',
+        'technique': 'contracts with exceptional postconditions (raises-iff) + VC generation, z3',
+    },
 }
